@@ -653,7 +653,8 @@ theorem checkProbing_asks_iff {r : Registry} {n : BList} {p : Probe} (now : Nat)
     exact (checkProbing_sends (alookup_mem hl) ha).1
 
 theorem probe_step_times (p : Probe) (now : Nat) :
-    (p.step now).start = p.start ∧ (p.step now).next = (if p.action now = .send then now + 250 else p.next) := by
+    (p.step now).start = (if p.action now = .send then p.start + (now - p.next) else p.start) ∧
+    (p.step now).next = (if p.action now = .send then now + 250 else p.next) := by
   unfold Probe.step
   cases h : p.action now <;> simp
 
@@ -664,7 +665,7 @@ theorem probingOnIntf_self (now j : Nat) (acc : State × List Out) (i : MyIntf) 
     (hl : alookup n (acc.1.registry i.index).probing = some p) (hpn : KeysNodup (acc.1.registry i.index).probing)
     (hnr : NoRen (acc.1.registry i.index)) (hact : p.action now ≠ .expire)
     (hset : Settled acc.1 i.index n) (hi : i ∈ acc.1.intfs) :
-    Watch (probingOnIntf now j acc i).1 i.index n p.start (if p.action now = .send then now + 250 else p.next)
+    Watch (probingOnIntf now j acc i).1 i.index n (if p.action now = .send then p.start + (now - p.next) else p.start) (if p.action now = .send then now + 250 else p.next)
       (p.cargo (alookup n (acc.1.registry i.index).active)) ∧
     (p.action now = .idle → ∀ o ∈ (probingOnIntf now j acc i).2, o ∈ acc.2 ∨ asksFor i.index n o = false) ∧
     (p.action now = .send → ∀ v4, i.hasFamily v4 = true → ∃ pkt, Out.send i.index v4 none pkt ∈ (probingOnIntf now j acc i).2 ∧
@@ -685,7 +686,8 @@ theorem probingOnIntf_self (now j : Nat) (acc : State × List Out) (i : MyIntf) 
     obtain ⟨ht1, ht2⟩ := probe_step_times p now
     have hw : Watch ({ (acc.1.setRegistry i.index
         (handleExpiredProbes (checkProbing r now).expired i.name (checkProbing r now).reg).1) with
-        timers := acc.1.timers ++ (checkProbing r now).timers } : State) i.index n p.start
+        timers := acc.1.timers ++ (checkProbing r now).timers } : State) i.index n
+        (if p.action now = .send then p.start + (now - p.next) else p.start)
         (if p.action now = .send then now + 250 else p.next) (p.cargo (alookup n r.active)) := by
       have e : ({ (acc.1.setRegistry i.index
           (handleExpiredProbes (checkProbing r now).expired i.name (checkProbing r now).reg).1) with
@@ -771,7 +773,7 @@ theorem probingHandler_frame (s : State) (now j : Nat) :
 theorem probingHandler_probe (s : State) (now j : Nat) (i : MyIntf) (l1 l2 : List MyIntf) (hi : IntfsOk s i l1 l2)
     (n : BList) (p : Probe) (hl : alookup n (s.registry i.index).probing = some p)
     {st nx : Nat} {R : Cargo} (hw : Watch s i.index n st nx R) (hact : p.action now ≠ .expire) :
-    Watch (probingHandler s now j).1 i.index n p.start (if p.action now = .send then now + 250 else p.next)
+    Watch (probingHandler s now j).1 i.index n (if p.action now = .send then p.start + (now - p.next) else p.start) (if p.action now = .send then now + 250 else p.next)
       (p.cargo (alookup n (s.registry i.index).active)) ∧
     (p.action now = .idle → ∀ o ∈ (probingHandler s now j).2, asksFor i.index n o = false) ∧
     (p.action now = .send → ∀ v4, i.hasFamily v4 = true → ∃ pkt, Out.send i.index v4 none pkt ∈ (probingHandler s now j).2 ∧
@@ -798,7 +800,7 @@ theorem probingHandler_probe (s : State) (now j : Nat) (i : MyIntf) (l1 l2 : Lis
     (probingOnIntf_frame now j _ i).1.trans hintfs1
   -- phase 3: the interfaces after `i`
   have h3 := foldl_inv (fun (a : State × List Out) =>
-      Watch a.1 i.index n p.start (if p.action now = .send then now + 250 else p.next)
+      Watch a.1 i.index n (if p.action now = .send then p.start + (now - p.next) else p.start) (if p.action now = .send then now + 250 else p.next)
         (p.cargo (alookup n (s.registry i.index).active)) ∧
       (∀ o ∈ a.2, o ∈ (probingOnIntf now j (l1.foldl (probingOnIntf now j) (s, [])) i).2 ∨ asksFor i.index n o = false) ∧
       (∀ o ∈ (probingOnIntf now j (l1.foldl (probingOnIntf now j) (s, [])) i).2, o ∈ a.2) ∧ a.1.intfs = s.intfs)
@@ -1143,13 +1145,31 @@ theorem Watch.weaken {s : State} {idx : Nat} {n : BList} {st nx : Nat} {R R' : C
 /-- did this iteration send a probe query for `n` on the interface? -/
 def asked (idx : Nat) (n : BList) (outs : List Out) : Bool := outs.any (asksFor idx n)
 
-/-- the tail of ONE iteration at `now` (after the commands), while the probe does not end (`now < st + 750` or not yet due):
-    the probe query for `n` leaves on `i` - over every family of the interface, with `ANY n` among
-    the questions and all of `R` among the authorities - exactly if `now ≥ nx`; then `nx` becomes
-    `now + 250`; otherwise nothing about the probe changes. -/
+/-- the action of a probe with start `st` and next send `nx` -/
+theorem action_of_times {p : Probe} {st nx : Nat} (hst : p.start = st) (hnx : p.next = nx) (now : Nat) :
+    p.action now = (if now ≥ nx then (if now ≥ st + 750 ∧ nx ≥ st + 750 then .expire else .send) else .idle) := by
+  unfold Probe.action
+  rw [hnx]
+  by_cases h : now ≥ nx
+  · by_cases e : p.expired now = true
+    · have := (Probe.expired_iff p now).mp e
+      rw [hst, hnx] at this
+      simp [h, e, this]
+    · have hn : ¬ (now ≥ st + 750 ∧ nx ≥ st + 750) := by
+        intro hh
+        rw [← hst, ← hnx] at hh
+        exact e ((Probe.expired_iff p now).mpr hh)
+      simp [h, e, hn]
+  · simp [h]
+
+/-- the tail of ONE iteration at `now` (after the commands), while the probe does not end - it is
+    not due, or not 750 ms old, or has not sent its three queries (`nx < st + 750`): the probe
+    query for `n` leaves on `i` - over every family of the interface, with `ANY n` among the
+    questions and all of `R` among the authorities - exactly if `now ≥ nx`; then `nx` becomes
+    `now + 250` and the start moves by the lateness `now - nx`; otherwise nothing about the probe changes. -/
 theorem loopTail_step (s : State) (i : MyIntf) (l1 l2 : List MyIntf) (n : BList) (st nx : Nat) (R : Cargo) (now j : Nat)
-    (h : Good s i l1 l2 n st nx R) (hlive : now < nx ∨ now < st + 750) :
-    Good (loopTail s now j).1 i l1 l2 n st (if now ≥ nx then now + 250 else nx) R ∧
+    (h : Good s i l1 l2 n st nx R) (hlive : now < nx ∨ now < st + 750 ∨ nx < st + 750) :
+    Good (loopTail s now j).1 i l1 l2 n (if now ≥ nx then st + (now - nx) else st) (if now ≥ nx then now + 250 else nx) R ∧
     (now < nx → asked i.index n (loopTail s now j).2 = false) ∧
     (now ≥ nx → ∀ v4, i.hasFamily v4 = true → ∃ pkt, Out.send i.index v4 none pkt ∈ (loopTail s now j).2 ∧
       pkt.flags = 0 ∧ (n, TYPE_ANY) ∈ pkt.questions ∧ ∀ a ∈ R.recs, a ∈ pkt.authorities) := by
@@ -1160,57 +1180,65 @@ theorem loopTail_step (s : State) (i : MyIntf) (l1 l2 : List MyIntf) (n : BList)
   obtain ⟨p, hp, hst, hnx, hrec, hwait⟩ := hw4.probe
   have hintfs4 : IntfsOk (runReruns s now j).1 i l1 l2 :=
     ⟨hi4.trans h.intfs.split, h.intfs.other⟩
+  have hnotend : ¬ (now ≥ nx ∧ now ≥ st + 750 ∧ nx ≥ st + 750) := by omega
   have hact : p.action now ≠ .expire := by
-    unfold Probe.action
-    rw [hst, hnx]
+    rw [action_of_times hst hnx now]
     split
     · split
-      · omega
+      · rename_i h1 h2; exact absurd ⟨h1, h2.1, h2.2⟩ hnotend
       · simp
     · simp
   obtain ⟨hw5, hidle5, hsend5⟩ := probingHandler_probe _ now j i l1 l2 hintfs4 n p hp hw4 hact
   obtain ⟨hf5i, hf5s⟩ := probingHandler_frame (runReruns s now j).1 now j
   obtain ⟨e1, e2, e3, e4⟩ := runIpCheck_registries
     (probingHandler (runReruns s now j).1 now j).1 now
-  have hnext : (if p.action now = .send then now + 250 else p.next) = (if now ≥ nx then now + 250 else nx) := by
-    unfold Probe.action
-    rw [hst, hnx]
-    by_cases hge : now ≥ nx
-    · have : ¬ now ≥ st + 750 := by omega
+  have hsendiff : p.action now = .send ↔ now ≥ nx := by
+    rw [action_of_times hst hnx now]
+    constructor
+    · intro hh
+      by_cases hge : now ≥ nx
+      · exact hge
+      · simp [hge] at hh
+    · intro hge
+      have : ¬ (now ≥ st + 750 ∧ nx ≥ st + 750) := fun hh => hnotend ⟨hge, hh.1, hh.2⟩
       simp [hge, this]
-    · simp [hge]
+  have hnext : (if p.action now = .send then now + 250 else p.next) = (if now ≥ nx then now + 250 else nx) := by
+    by_cases hge : now ≥ nx
+    · simp [hsendiff.mpr hge, hge]
+    · have : ¬ p.action now = .send := fun hh => hge (hsendiff.mp hh)
+      simp [this, hge, hnx]
+  have hstart : (if p.action now = .send then p.start + (now - p.next) else p.start) = (if now ≥ nx then st + (now - nx) else st) := by
+    by_cases hge : now ≥ nx
+    · simp [hsendiff.mpr hge, hge, hst, hnx]
+    · have : ¬ p.action now = .send := fun hh => hge (hsendiff.mp hh)
+      simp [this, hge, hst]
   refine ⟨⟨?_, ?_, ?_, ?_⟩, ?_, ?_⟩
   · rw [e3, hf5s, hs4]; exact h.running
   · exact ⟨by rw [e2, hf5i]; exact hintfs4.split, h.intfs.other⟩
-  · rw [← hnext, ← hst]
+  · rw [← hnext, ← hstart]
     exact (hw5.congr e1 (runIpCheck_services _ now) e2).weaken hrec hwait hw4.act.symm
   · intro t pk k v hm
     rw [e4] at hm
     exact probingHandler_rerunsOk _ now j hr4 t pk k v hm
   · intro hlt
     have hidle : p.action now = .idle := by
-      unfold Probe.action
-      rw [hnx]
+      rw [action_of_times hst hnx now]
       have : ¬ now ≥ nx := by omega
       simp [this]
     simp only [asked, List.any_append, Bool.or_eq_false_iff, List.any_eq_false]
     exact ⟨fun o ho => by simp [ho4 o ho], fun o ho => by simp [hidle5 hidle o ho]⟩
   · intro hge v4 hfam
-    have hsend : p.action now = .send := by
-      unfold Probe.action
-      rw [hst, hnx]
-      have : ¬ now ≥ st + 750 := by omega
-      simp [hge, this]
-    obtain ⟨pkt, hm, hfl, hq, hauth⟩ := hsend5 hsend v4 hfam
+    obtain ⟨pkt, hm, hfl, hq, hauth⟩ := hsend5 (hsendiff.mpr hge) v4 hfam
     exact ⟨pkt, List.mem_append.mpr (Or.inr hm), hfl, hq, fun a ha => hauth a (hrec a ha)⟩
 
-/-- ONE idle iteration at `now`, while the probe does not end (`now < st + 750` or not yet due):
-    the probe query for `n` leaves on `i` - over every family of the interface, with `ANY n` among
-    the questions and all of `R` among the authorities - exactly if `now ≥ nx`; then `nx` becomes
-    `now + 250`; otherwise nothing about the probe changes. -/
+/-- ONE idle iteration at `now`, while the probe does not end (not due, or not 750 ms old, or
+    its three queries not yet sent): the probe query for `n` leaves on `i` - over every family of
+    the interface, with `ANY n` among the questions and all of `R` among the authorities -
+    exactly if `now ≥ nx`; then `nx` becomes `now + 250` and the start moves by the lateness;
+    otherwise nothing about the probe changes. -/
 theorem iter_idle_step (s : State) (i : MyIntf) (l1 l2 : List MyIntf) (n : BList) (st nx : Nat) (R : Cargo) (now j : Nat)
-    (h : Good s i l1 l2 n st nx R) (hlive : now < nx ∨ now < st + 750) :
-    Good (iter s (idle now j)).1 i l1 l2 n st (if now ≥ nx then now + 250 else nx) R ∧
+    (h : Good s i l1 l2 n st nx R) (hlive : now < nx ∨ now < st + 750 ∨ nx < st + 750) :
+    Good (iter s (idle now j)).1 i l1 l2 n (if now ≥ nx then st + (now - nx) else st) (if now ≥ nx then now + 250 else nx) R ∧
     (now < nx → asked i.index n (iter s (idle now j)).2 = false) ∧
     (now ≥ nx → ∀ v4, i.hasFamily v4 = true → ∃ pkt, Out.send i.index v4 none pkt ∈ (iter s (idle now j)).2 ∧
       pkt.flags = 0 ∧ (n, TYPE_ANY) ∈ pkt.questions ∧ ∀ a ∈ R.recs, a ∈ pkt.authorities) := by
@@ -1218,10 +1246,11 @@ theorem iter_idle_step (s : State) (i : MyIntf) (l1 l2 : List MyIntf) (n : BList
   exact loopTail_step _ i l1 l2 n st nx R now j
     ⟨h.running, ⟨h.intfs.split, h.intfs.other⟩, h.watch.congr rfl rfl rfl, h.reruns⟩ hlive
 
-/-- the tail of the iteration in which the probe ends (`now ≥ nx`, `now ≥ st + 750`): no probe query
-    for `n`, and every record of `R` filed under `n` is active afterwards -/
+/-- the tail of the iteration in which the probe ends (`now ≥ nx`, `now ≥ st + 750`, the three
+    queries sent: `nx ≥ st + 750`): no probe query for `n`, and every record of `R` filed under `n`
+    is active afterwards -/
 theorem loopTail_end (s : State) (i : MyIntf) (l1 l2 : List MyIntf) (n : BList) (st nx : Nat) (R : Cargo) (now j : Nat)
-    (h : Good s i l1 l2 n st nx R) (h1 : now ≥ nx) (h2 : now ≥ st + 750) :
+    (h : Good s i l1 l2 n st nx R) (h1 : now ≥ nx) (h2 : now ≥ st + 750) (h3 : nx ≥ st + 750) :
     asked i.index n (loopTail s now j).2 = false ∧
     ∀ a ∈ R.recs, a.getName = n → ((loopTail s now j).1.registry i.index).isActive a = true := by
   unfold loopTail
@@ -1231,9 +1260,8 @@ theorem loopTail_end (s : State) (i : MyIntf) (l1 l2 : List MyIntf) (n : BList) 
   have hintfs4 : IntfsOk (runReruns s now j).1 i l1 l2 :=
     ⟨hi4.trans h.intfs.split, h.intfs.other⟩
   have hact : p.action now = .expire := by
-    unfold Probe.action
-    rw [hst, hnx]
-    simp [h1, h2]
+    rw [action_of_times hst hnx now]
+    simp [h1, h2, h3]
   obtain ⟨hact5, hout5⟩ := probingHandler_probe_end _ now j i l1 l2 hintfs4 n p hp hw4.pn hw4.noRen hact
   obtain ⟨e1, _, _, _⟩ := runIpCheck_registries
     (probingHandler (runReruns s now j).1 now j).1 now
@@ -1244,15 +1272,15 @@ theorem loopTail_end (s : State) (i : MyIntf) (l1 l2 : List MyIntf) (n : BList) 
     rw [registry_congr e1]
     exact hact5 a (hrec a ha) hname
 
-/-- the idle iteration in which the probe ends (`now ≥ nx`, `now ≥ st + 750`): no probe query
-    for `n`, and every record of `R` filed under `n` is active afterwards -/
+/-- the idle iteration in which the probe ends (`now ≥ nx`, `now ≥ st + 750`, `nx ≥ st + 750`): no
+    probe query for `n`, and every record of `R` filed under `n` is active afterwards -/
 theorem iter_idle_end (s : State) (i : MyIntf) (l1 l2 : List MyIntf) (n : BList) (st nx : Nat) (R : Cargo) (now j : Nat)
-    (h : Good s i l1 l2 n st nx R) (h1 : now ≥ nx) (h2 : now ≥ st + 750) :
+    (h : Good s i l1 l2 n st nx R) (h1 : now ≥ nx) (h2 : now ≥ st + 750) (h3 : nx ≥ st + 750) :
     asked i.index n (iter s (idle now j)).2 = false ∧
     ∀ a ∈ R.recs, a.getName = n → ((iter s (idle now j)).1.registry i.index).isActive a = true := by
   rw [iter_idle s now j h.running]
   exact loopTail_end _ i l1 l2 n st nx R now j
-    ⟨h.running, ⟨h.intfs.split, h.intfs.other⟩, h.watch.congr rfl rfl rfl, h.reruns⟩ h1 h2
+    ⟨h.running, ⟨h.intfs.split, h.intfs.other⟩, h.watch.congr rfl rfl rfl, h.reruns⟩ h1 h2 h3
 
 /-- a run of idle iterations at the given times: final state and (time, outputs) per iteration -/
 def idleRun (j : Nat) : State → List Nat → State × List (Nat × List Out)
@@ -1287,7 +1315,10 @@ theorem idleRun_skip (j : Nat) (i : MyIntf) (l1 l2 : List MyIntf) (n : BList) (s
     have hnx : (if t ≥ nx then t + 250 else nx) = nx := by
       have : ¬ t ≥ nx := by omega
       simp [this]
-    rw [hnx] at hg
+    have hst' : (if t ≥ nx then st + (t - nx) else st) = st := by
+      have : ¬ t ≥ nx := by omega
+      simp [this]
+    rw [hnx, hst'] at hg
     obtain ⟨hg', hask'⟩ := ih _ hg (fun x hx => hpre x (List.mem_cons_of_mem _ hx))
     refine ⟨hg', ?_⟩
     simp only [idleRun, askTimes, List.filter_cons, hno ht]
@@ -1299,8 +1330,8 @@ theorem idleRun_send (j : Nat) (i : MyIntf) (l1 l2 : List MyIntf) (n : BList) (s
     Good (idleRun j s [nx]).1 i l1 l2 n st (nx + 250) R ∧ askTimes i.index n (idleRun j s [nx]).2 = [nx] ∧
     ∀ v4, i.hasFamily v4 = true → ∃ pkt, Out.send i.index v4 none pkt ∈ (iter s (idle nx j)).2 ∧
       pkt.flags = 0 ∧ (n, TYPE_ANY) ∈ pkt.questions ∧ ∀ a ∈ R.recs, a ∈ pkt.authorities := by
-  obtain ⟨hg, _, hsend⟩ := iter_idle_step s i l1 l2 n st nx R nx j h (Or.inr hlive)
-  simp only [ge_iff_le, Nat.le_refl, ↓reduceIte] at hg
+  obtain ⟨hg, _, hsend⟩ := iter_idle_step s i l1 l2 n st nx R nx j h (Or.inr (Or.inr hlive))
+  simp only [ge_iff_le, Nat.le_refl, ↓reduceIte, Nat.sub_self, Nat.add_zero] at hg
   have hs := hsend (Nat.le_refl _)
   refine ⟨hg, ?_, hs⟩
   obtain ⟨v4, hv⟩ := hfam
@@ -1328,7 +1359,7 @@ theorem idleRun_final (j : Nat) (i : MyIntf) (l1 l2 : List MyIntf) (n : BList) (
     askTimes i.index n (idleRun j s (pre ++ [nx])).2 = [] ∧
     ∀ a ∈ R.recs, a.getName = n → ((idleRun j s (pre ++ [nx])).1.registry i.index).isActive a = true := by
   obtain ⟨hg1, ha1⟩ := idleRun_skip j i l1 l2 n st nx R pre s h hpre
-  obtain ⟨hno, hact⟩ := iter_idle_end _ i l1 l2 n st nx R nx j hg1 (Nat.le_refl _) hend
+  obtain ⟨hno, hact⟩ := iter_idle_end _ i l1 l2 n st nx R nx j hg1 (Nat.le_refl _) hend hend
   rw [idleRun_append]
   constructor
   · rw [askTimes_append, ha1]
@@ -1711,13 +1742,19 @@ theorem registration_creates_probe (s : State) (i : MyIntf) (l1 l2 : List MyIntf
     · split at ho
       · simp at ho
       · exact notify_not_asks _ _ i.index n o ho
-  obtain ⟨hg, hno, hsend⟩ := loopTail_step _ i l1 l2 n (now + j) (now + j) ⟨[b], [svc.fullname], alookup n (s.registry i.index).active⟩ now j hgood (Or.inr (by omega))
+  obtain ⟨hg, hno, hsend⟩ := loopTail_step _ i l1 l2 n (now + j) (now + j) ⟨[b], [svc.fullname], alookup n (s.registry i.index).active⟩ now j hgood (Or.inr (Or.inl (by omega)))
   have hnx : (if now ≥ now + j then now + 250 else now + j) = (if j = 0 then now + 250 else now + j) := by
     by_cases hj : j = 0
     · subst hj; simp
     · have : ¬ now ≥ now + j := by omega
       simp [this, hj]
-  refine ⟨b, hm, hbn, hnx ▸ hg, ?_, ?_⟩
+  have hst' : (if now ≥ now + j then now + j + (now - (now + j)) else now + j) = now + j := by
+    by_cases hj : j = 0
+    · subst hj; simp
+    · have : ¬ now ≥ now + j := by omega
+      simp [this]
+  rw [hnx, hst'] at hg
+  refine ⟨b, hm, hbn, hg, ?_, ?_⟩
   · intro hj
     have := hno (by omega)
     simp only [asked, List.any_append, Bool.or_eq_false_iff, List.any_eq_false] at this ⊢
